@@ -563,7 +563,7 @@ def validate_traces(chk, records):
         if r.ok:
             ok += len(recs)
         else:
-            m = re.findall(r"REJECTED trace (\d+) at event (\d+)", r.out)
+            m = re.findall(r'REJECTED trace", (\d+), "at event", (\d+)', r.out)
             if r.violated or m or "AllAccepted" in r.out:
                 chk.violation(f"C05:{name}:trace-rejected", f"real execution is not a behaviour of Mailbox.tla "
                               f"({r.violated or m})", dict(cfg=c, traces=recs[:2]))
